@@ -705,6 +705,10 @@ static int btcp_receive(struct xcm_socket *__restrict s, void *__restrict buf,
 	break;
     }
 
+    /* recv() would return 0, which is not the peer closing */
+    if (capacity == 0)
+	return 0;
+
     int rc = recv(bts->fd, buf, capacity, 0);
 
     if (bts->conn.state == conn_state_closed && rc <= 0) {
